@@ -313,6 +313,46 @@ class Check:
             self._leanchecker(modules)
         return not self.broken
 
+    def prove_bridge(self, modules, theorems):
+        """Bridge theorems `generated definition = hand-written model function` (translator tie T2 for code whose
+        property theorems are stated about a hand model).  They are a SECOND tie next to the differential
+        correspondence: when one no longer checks, the entries are recorded as 'translator:bridge …' — by themselves
+        not a violation (finish()), but `self.bridge_broken` tells the property's harness to aim a much deeper
+        differential search at exactly the functions whose generated definition changed."""
+        self.bridge_broken = getattr(self, 'bridge_broken', [])
+        # (a bridge theorem counts among the obligations of the property only when it checks: the property theorems are
+        # about the hand model, whose tie to the code is the correspondence; the bridge tally is in translator_ties)
+        self.checker_cmds.append('cd lean && lake build %s (bridge theorems: generated definitions = model functions)'
+                                 % ' '.join(modules))
+        ok_mods = set()
+        for m in modules:
+            rc, log = self._lake(['build', m])
+            if rc == 0:
+                ok_mods.add(m)
+            else:
+                self.notes['bridge_build_error:' + m] = log[-2500:]
+        by_mod = {}
+        for mod, name in theorems:
+            by_mod.setdefault(mod, []).append(name)
+        for mod, names in by_mod.items():
+            res = self._audit(mod, names) if mod in ok_mods else {}
+            for nme in names:
+                ax = res.get(nme)
+                if ax is not None and set(ax) <= ALLOWED_AXIOMS:
+                    self.axioms[nme] = sorted(ax)
+                    self.obligations += 1
+                    self.discharged += 1
+                else:
+                    self.bridge_broken.append(nme)
+                    self.broken.append('translator:bridge %s (the definition regenerated from the current source is no longer '
+                                       'provably the model function)' % nme)
+        hits = self.forbidden_scan(modules, ())
+        if hits:
+            self.broken.append('forbidden-constructs:' + ';'.join(hits[:5]))
+        self.translit['bridge_theorems'] = {'checked': [n for _, n in theorems if n not in self.bridge_broken],
+                                            'broken': list(self.bridge_broken)}
+        return not self.bridge_broken
+
     def _audit(self, mod, names):
         d = LEAN / '.audit'
         d.mkdir(exist_ok=True)
